@@ -22,9 +22,13 @@ RULE = (
     "1..3 messages over {ping, version, verack, inv, addr, unknown command} with a schedule. walks-3x2: all 729 class "
     "assignments of 3 peers x 2 messages, each with schedules whose choices are digits of a hash (deterministic). Histogram labels starting "
     "with 'exec' / 'nt:exec' count executions (one label per executed schedule), 'case:' labels count cases. "
-    "Non-trivial execution: while a thread is between the first and last step of processing one handled message, another "
-    "thread enqueues (nt:exec/foreign-enqueue-inside-handled-window; the sub-class nt:exec/preempted-between-enqueue-and-"
-    "dequeue is the enqueue..dequeue shape of the current code). A case is non-trivial if it contains such an execution."
+    "Non-trivial execution: while a thread is between the first and the last step of processing one handled message, "
+    "another thread performs a step of a message that has to end up queued (nt:exec/queued-message-step-inside-handled-"
+    "window, stated without reference to which operations the implementation uses), or specifically enqueues "
+    "(nt:exec/foreign-enqueue-inside-handled-window), or specifically enqueues between that thread's own enqueue and "
+    "dequeue (nt:exec/preempted-between-enqueue-and-dequeue, the shape the property text names). A case is non-trivial "
+    "if it contains such an execution. Failure signatures end in @interleaving-only when the same assignment shows no "
+    "such failure in any of the n! serial orders, else @serial."
 )
 ASSUMPTIONS = [
     "vf/ref/p2pwire.py (message envelope, ping/inv/addr/version layouts; validated against the protocol documentation's verack and version examples) is correct",
@@ -34,6 +38,7 @@ ASSUMPTIONS = [
 ]
 SELFCHECKS = [W.selfcheck]
 
+NT = "nt:exec/queued-message-step-inside-handled-window"
 KINDS = ("ping", "version", "verack", "inv", "addr", "unknown")
 CLASS_KINDS = {"R": ("ping", "version"), "S": ("verack",), "Q": ("inv", "addr", "unknown")}
 CLASS_WEIGHT = {"R": 4, "S": 3, "Q": 2}  # steps per message in the current code; only used to balance shards
@@ -144,15 +149,19 @@ def features(trace, handled):
         if key not in first:
             first[key] = k
         last[key] = k
-    interleaved = race = False
+    interleaved = race = mid = False
     for key, f in first.items():
         t = key[0]
+        is_handled = 0 <= key[1] < len(handled[t]) and handled[t][key[1]]
         for k in range(f + 1, last[key]):
-            t2, op2, _ = trace[k]
+            t2, op2, m2 = trace[k]
             if t2 != t:
                 interleaved = True
-                if op2 in S.ENQUEUE_OPS and 0 <= key[1] < len(handled[t]) and handled[t][key[1]]:
-                    race = True
+                if is_handled:
+                    if op2 in S.ENQUEUE_OPS:
+                        race = True
+                    if 0 <= m2 < len(handled[t2]) and not handled[t2][m2]:
+                        mid = True
     # enqueue .. dequeue of one thread with a foreign enqueue in between (the shape the current code is exposed to)
     open_, seen, shape = {}, {}, False
     for t, op, m in trace:
@@ -166,14 +175,16 @@ def features(trace, handled):
                 shape = True
             open_[t] = False
     labels = ["exec"]
+    if mid:
+        labels.append(NT)
     if race:
         labels.append("nt:exec/foreign-enqueue-inside-handled-window")
     if shape:
         labels.append("nt:exec/preempted-between-enqueue-and-dequeue")
     if not interleaved:
         labels.append("exec/serial")
-    elif not race:
-        labels.append("exec/interleaved-no-race-window")
+    elif not (race or mid):
+        labels.append("exec/interleaved-outside-handled-windows")
     return labels
 
 
@@ -557,9 +568,6 @@ def sampled_cases(draw):
     peers = [draw(st.lists(_MSG, min_size=1, max_size=3)) for _ in range(n)]
     schedule = draw(st.lists(st.integers(0, 5), max_size=12 * n))
     return {"peers": peers, "schedule": schedule}
-
-
-NT = "nt:exec/foreign-enqueue-inside-handled-window"
 
 
 def targets(tier):
